@@ -456,6 +456,11 @@ func runHbSeq(topo *Topo, c HbCfg) []HbLine {
 				if s.dev.Entity(entAddr("5")) == nil {
 					s.dev.AddEntity(ent)
 				}
+			case "addfn":
+				// the heartbeat function is added to its feature once more (it is there already: nothing changes)
+				if f := ent.FeatureOfTypeAndRole(model.FeatureTypeTypeDeviceDiagnosis, model.RoleTypeServer); f != nil && !isNilIface(f) {
+					f.AddFunctionType(model.FunctionTypeDeviceDiagnosisHeartbeatData, true, false)
+				}
 			}
 		}()
 		hbObserve(obs, p, hm, subOK && op != "rement", &line)
